@@ -19,7 +19,7 @@ PersonFields == << <<"Name", SB("Ann")>>, <<"Age", IntV(30)>>, <<"Tags", Arr(<<S
 Base == {
   Seqc("slice:int:4,5,6", <<IntV(4), IntV(5), IntV(6)>>), Seqc("slice:int:", <<>>), Seqc("slice:int:7", <<IntV(7)>>),
   Seqc("slice:string:a,b", <<SB("a"), SB("b")>>), Seqc("slice:value:1,x,3", <<IntV(1), SB("x"), IntV(3)>>),
-  Seqc("array3", <<IntV(7), IntV(8), IntV(9)>>), Seqc("slice:int:0,1,2,3,4,5,6,7", [q \in 1..8 |-> IntV(q - 1)]),
+  Seqc("array3", <<IntV(7), IntV(8), IntV(9)>>), Seqc("slice:float:0,1,2,3", <<IntV(0), IntV(1), IntV(2), IntV(3)>>),   \* []float64, what a..b yields Seqc("slice:int:0,1,2,3,4,5,6,7", [q \in 1..8 |-> IntV(q - 1)]),
   Mapc("map:ss:a=x,b=y", "string", << <<SB("a"), SB("x")>>, <<SB("b"), SB("y")>> >>),
   Mapc("map:ss:k=v", "string", << <<SB("k"), SB("v")>> >>), Mapc("map:ss:", "string", <<>>),
   Mapc("map:si:a=1,b=2,c=3", "string", << <<SB("a"), IntV(1)>>, <<SB("b"), IntV(2)>>, <<SB("c"), IntV(3)>> >>),
